@@ -619,6 +619,9 @@ def gen_dtls(ch, spec):
     cfg["net"] = p.to_json()
     cfg["sched"] = ch.chance("cfg", 0.7, True)
     cfg["turn"] = fakes.gen_turn(ch, ["A", "B"])
+    if ch.chance("cfg", 0.1):
+        # the application stops one side while its handshake is still in progress
+        cfg["stop_hs"] = {"side": ch.choice("cfg", ["A", "B"]), "after": ch.choice("cfg", [0.0, 0.001, 0.01, 0.05, 0.3])}
     n = ch.choice("wl", [4, 10, 25, 60])
     ops = []
     for _ in range(n):
@@ -794,6 +797,10 @@ class DtlsWorld(MediaBase):
                         self.loop.create_task(self.send_one(n, {"kind": kind, "size": 20, "early": True}, seq),
                                               context=pair.ctx[n])
             pair.dtls[n].on("statechange", on_state)
+        if cfg.get("stop_hs"):
+            await self.stop_during_handshake(params, seq)
+            self.link_faults(self.fabric.links)
+            return
         await pair.connect(dtls_params=params)
         for n, exc in pair.start_errors:
             self.violation("C04", "dtls-start-raised:" + exc_tag(exc), "side %s: %r" % (n, exc))
@@ -833,6 +840,57 @@ class DtlsWorld(MediaBase):
         await asyncio.sleep(3.0)
         self.final(states)
         self.link_faults(self.fabric.links)
+
+    async def stop_during_handshake(self, params, seq):
+        """One side's application calls stop() while its start() is still in the handshake; the peer carries on.
+        Whatever that does to the stopping side's state, a side whose signalled fingerprints do not match the peer's
+        certificate must never report connected, never hold SRTP keys and never deliver anything."""
+        cfg, pair = self.cfg, self.pair
+        n = cfg["stop_hs"]["side"]
+        peer = "B" if n == "A" else "A"
+        seen = {"A": [], "B": []}
+        for x in "AB":
+            pair.dtls[x].on("statechange", lambda x=x: seen[x].append(pair.dtls[x].state))
+        conn = self.loop.create_task(pair.connect(dtls_params=params))
+        t_end = self.loop.time() + 5.0
+        while pair.dtls[n].state == "new" and self.loop.time() < t_end and not conn.done():
+            await asyncio.sleep(0.001)
+        await asyncio.sleep(cfg["stop_hs"]["after"])
+        at_stop = pair.dtls[n].state
+        try:
+            await self.loop.create_task(pair.dtls[n].stop(), context=pair.ctx[n])
+        except Exception as exc:  # noqa
+            self.violation("C04", "dtls-stop-raised:" + exc_tag(exc), "side %s in state %s: %r" % (n, at_stop, exc))
+            return
+        self.probes["stopped_in_" + at_stop] += 1
+        await asyncio.wait([conn], timeout=10.0)
+        # the peer carries on with whatever it has
+        for i in range(4):
+            for kind in ("rtp", "data"):
+                try:
+                    await self.loop.create_task(self.send_one(peer, {"kind": kind, "size": 20, "pt": 96, "marker": 0}, seq),
+                                                context=pair.ctx[peer])
+                except Exception:  # noqa
+                    pass
+            await asyncio.sleep(0.05)
+        await asyncio.sleep(2.0)
+        if not conn.done():
+            conn.cancel()
+        common = [j for j in cfg["profiles_A"] if j in cfg["profiles_B"]]
+        for x in "AB":
+            if self.expect_identity_ok(x) and common:
+                continue
+            # x must not accept its peer
+            if "connected" in seen[x]:
+                self.violation("C04", "state-connected-but-failed-expected:stop-during-handshake", "side %s states %r" % (x, seen[x]))
+            elif pair.dtls[x]._rx_srtp is not None or pair.dtls[x]._tx_srtp is not None:
+                self.violation("C04", "srtp-keys-derived-for-a-peer-whose-fingerprint-does-not-match",
+                               "side %s (stop() was called on %s in state %s); states %r" % (x, n, at_stop, seen[x]))
+            elif self.got[x]:
+                self.violation("C04", "failed-transport-delivered-something",
+                               "side %s got %r (stop() on %s in state %s)" % (x, [g[0] for g in self.got[x]][:6], n, at_stop))
+            else:
+                self.probes["stop_during_handshake_nothing_accepted"] += 1
 
     async def send_burst(self, n, op):
         """Several data messages handed to the transport by concurrent tasks (as RTCSctpTransport does from its timers,
